@@ -217,6 +217,8 @@ F = 8          # secfxp(16): 8 fractional bits
 
 
 def gen_vals(rng, tname, n):
+    if tname.startswith('int64'):
+        return [rng.choice([0, 1, -1, 2**31 - 1, -2**31, rng.randint(-10**6, 10**6), rng.randint(-20, 20)]) for _ in range(n)]
     if tname == 'int':
         return [rng.choice([0, 1, -1, 7, -8, rng.randint(-20, 20), rng.randint(-20, 20)]) for _ in range(n)]
     if tname == 'fld':
@@ -320,6 +322,8 @@ def ops_table():
     T['np_random_bits'] = dict(arr=lambda np, x, y, k: x * 0,
                                arr_mpc=lambda mpc, np, x, y, k: (lambda b: b * (1 - b) + 0 * x)(mpc.np_random_bits(type(x).sectype, x.size).reshape(x.shape)),
                                types=('int',), wtypes=('int',), arity=1)
+    T['np_equal'] = dict(arr=lambda np, x, y, k: np.equal(x, y), types=(), arity=2)
+    T['np_not_equal'] = dict(arr=lambda np, x, y, k: np.not_equal(x, y), types=(), arity=2)
     T['inout'] = dict(arr=lambda np, x, y, k: x, types=('int', 'fxp', 'fld', 'fxpi'), arity=1, inout=True)
     return T
 
@@ -389,6 +393,25 @@ def gen_cases(ctx, T, per_op):
     return cases
 
 
+_MODULI = []
+
+
+def user_moduli(gmpy):
+    """deterministic user-supplied prime moduli for SecInt(64, p=P): the first primes above 2^96 (P > 2^(l+k+1) for l=64 at
+    the default security parameter 30) that are 1 mod 4 (NOT a Blum prime) and 3 mod 4 (as in c31.py)"""
+    if not _MODULI:
+        q = 1 << 96
+        P1 = P3 = None
+        while P1 is None or P3 is None:
+            q = int(gmpy.next_prime(q))
+            if q % 4 == 1 and P1 is None:
+                P1 = q
+            if q % 4 == 3 and P3 is None:
+                P3 = q
+        _MODULI.extend([P1, P3])
+    return tuple(_MODULI)
+
+
 def make_case_coro(T):
     async def case_coro(mpc, mods, pid, case):
         (nm, tx, ty, xs, xv, ys, yv, k) = case
@@ -397,6 +420,9 @@ def make_case_coro(T):
         secint, secfxp, secfld = mpc.SecInt(16), mpc.SecFxp(16), mpc.SecFld(P)
 
         def stype(tn):
+            if tn.startswith('int64'):
+                P1, P3 = user_moduli(mods['mpyc.gmpy'])
+                return {'int64': lambda: mpc.SecInt(64), 'int64p1': lambda: mpc.SecInt(64, p=P1), 'int64p3': lambda: mpc.SecInt(64, p=P3)}[tn]()
             return {'int': secint, 'fld': secfld, 'fxp': secfxp, 'fxpi': secfxp}[tn]
 
         def plain(tn, vals, shape):
@@ -1131,6 +1157,9 @@ def judge_case(ctx, T, case, got, cfg, model_items=None, sigtag=''):
         if isinstance(want, tuple) and want[0] == 'EXC':
             ctx.case(key, nontrivial=False, kind='error-inputs')
             return
+        if '--mix32-64bit' in cfg and got[0] == 'EXC' and isinstance(want, tuple) and want[0] == 'arr' and want[2] == []:
+            ctx.violation('array-%s exc mix32-empty-output' % nm, dict(key, got=got, want=str(want)[:300]))     # F-C37-5
+            return
         if nm == 'np_lsb' and 'no-prss' in cfg and got[0] == 'EXC':
             ctx.violation('array-np_lsb exc no-prss', dict(key, got=got, want=str(want)[:300]))     # F-C37-4
             return
@@ -1231,6 +1260,43 @@ def workers_stream(ctx, T):
                      {'detail': 'no ThreadPoolExecutor.submit(powmod_base_list, ...) observed with MPYC_MAXWORKERS in (2, 3)'})
 
 
+MODULI_OPS = ('ew_eq', 'ew_ne', 'ew_lt', 'ew_le', 'ew_gt', 'ew_ge', 'np_equal', 'np_not_equal', 'where', 'all', 'any', 'ew_add',
+              'ew_sub', 'ew_mul', 'sum', 'sort_last', 'minimum')
+
+
+def moduli_stream(ctx, T):
+    """secure integer arrays of 64 bits with the default modulus and with user-supplied prime moduli p = 1 (mod 4) and
+    p = 3 (mod 4): the zero test / comparison protocols are selected by bit length, security parameter and p mod 4"""
+    rng = ctx.rng
+    for (m, t) in ((1, 0), (3, 1)):
+        t1 = time.time()
+        cases = []
+        for tx in ('int64', 'int64p1', 'int64p3'):
+            for nm in MODULI_OPS:
+                for rep in range(ctx.n(1, 4) if m > 1 else ctx.n(2, 6)):
+                    xs = ys = rng.choice([(4,), (2, 3), (5,), (1,), (2, 2, 2)])
+                    if nm.startswith('ew_') and rng.random() < 0.3:
+                        xs, ys = rng.choice(BC_PAIRS)
+                    spec = T[nm]
+                    if spec['arity'] == 1:
+                        ys = None
+                    xv = gen_vals(rng, tx, prodshape(xs))
+                    yv = gen_vals(rng, tx, prodshape(ys)) if ys is not None else None
+                    if yv is not None and nm in ('ew_eq', 'ew_ne', 'ew_le', 'ew_ge', 'np_equal', 'np_not_equal', 'all', 'any', 'where'):
+                        A, B, _ = bc_index(__import__('numpy'), tuple(xs), tuple(ys))
+                        for a_, b_ in zip(A, B):
+                            if rng.random() < 0.5:
+                                yv[b_] = xv[a_]      # equal entries
+                    if nm == 'ew_mul':
+                        xv = [v % 2**20 for v in xv]
+                    cases.append((nm, tx, tx, list(xs), xv, (list(ys) if ys is not None else None), yv, None))
+        res = run_cases(ctx, m, t, False, cases, make_case_coro(T), seed=ctx.seed + 77 + m)
+        cfg = 'm=%d t=%d' % (m, t)
+        for case, got in zip(cases, res):
+            judge_case(ctx, T, case, got, cfg, None, sigtag='moduli ')
+        ctx.log('user-supplied moduli SecInt(64[, p]) arrays %s: %d cases in %.1fs' % (cfg, len(cases), time.time() - t1))
+
+
 def run(ctx):
     ok = ctx.build() and ctx.check_props()
     try:
@@ -1269,6 +1335,7 @@ def run(ctx):
     ext_stream(ctx, FF)
     alias_stream(ctx)
     workers_stream(ctx, T)
+    moduli_stream(ctx, T)
     # (iii) Coq model
     if ok and model_items:
         res = ctx.coq_eval(['MPyC.Arrays'], [e for (_, _, e) in model_items], chunk=100)
